@@ -7,6 +7,7 @@ from typing import Dict, List, Optional, Set, Tuple
 from ..cfg import CFG, Node
 from ..core import AnalysisError, Cls, Fn, Repo, call_name, calls_in, const_value, dotted, get_kw, last_attr, short, walk_no_nested
 from ..domains import conjuncts
+from ..pat import has
 from ..report import Check
 from ..terms import Poly, TermBuilder, single_atom
 from ..util import self_attr_stores
@@ -268,11 +269,11 @@ def _kernel_bound(ck: Check, repo: Repo) -> None:
             a = single_atom(atb, t)
             ck.ob("C03.6", al, c, a is not None and a.kind == "idx" and "calc_max_kernel_sizes" in a.key and a.name.replace(" ", "") in ("-1", "-1*1"),
                   "add_layer draws the new layer's kernel within the limit of the last feature map", detail=t.key()[:120])
-    ck.ob("C03.6", al, al.node, "self.mut_kernel_size.calc_max_kernel_sizes(self.channel_size, self.stride_size, self.input_shape)" in ast.unparse(al.node),
+    ck.ob("C03.6", al, al.node, has(al.node, 'self.mut_kernel_size.calc_max_kernel_sizes(self.channel_size, self.stride_size, self.input_shape)'),
           "add_layer computes the limits from the module's current architecture", construct="add_layer max kernels source")
     cm = repo.fn("agilerl.utils.evolvable_networks", "calc_max_kernel_sizes")
     src = ast.unparse(cm.node)
-    ck.ob("C03.6", cm, cm.node, "if max_kernel_size <= 0:\n            max_kernel_size = 1" in src and "min(height_out, width_out)" in src,
+    ck.ob("C03.6", cm, cm.node, has(src, 'if $max_kernel_size <= 0:\n    $max_kernel_size = 1') and has(src, 'min($height_out, $width_out)'),
           "the limit derives from the smaller side of the feature map and is at least 1", construct="calc_max_kernel_sizes clamp")
 
 
@@ -424,7 +425,7 @@ def _init_dict(ck: Check, repo: Repo) -> None:
     ck.floor("C03.4", n, 120, "constructor parameters of evolvable classes examined")
     gi = repo.fn("agilerl.modules.base", "EvolvableModule.get_init_dict")
     src = ast.unparse(gi.node)
-    ck.ob("C03.4", gi, gi.node, "inspect.signature(self.__init__).parameters" in src and "{k: getattr(self, k) for k in constructor_args.keys()}" in src,
+    ck.ob("C03.4", gi, gi.node, has(src, 'inspect.signature(self.__init__).parameters') and has(src, '{$k: getattr(self, $k) for $k in $constructor_args.keys()}'),
           "init_dict is read attribute-by-attribute from the constructor's parameter names", construct="get_init_dict")
 
 
@@ -435,9 +436,9 @@ def _forwarded(ck: Check, repo: Repo) -> None:
     fw = [c for c in calls_in(fn.node) if call_name(c) == "self._init_wrapped_methods"]
     dis = [c for c in calls_in(fn.node) if last_attr(c) == "disable_mutations" and dotted(c.func.value) == "module"]
     helper = repo.fn("agilerl.modules.base", "EvolvableWrapper._init_wrapped_methods")
-    re_adv = "setattr(self, method, getattr(module, method))" in ast.unparse(helper.node)
+    re_adv = has(helper.node, 'setattr(self, $method, getattr($module, $method))')
     guard = repo.fn("agilerl.modules.base", "_mutation_wrapper")
-    guarded = "if attribute not in module.mutation_methods" in ast.unparse(guard.node)
+    guarded = has(guard.node, 'if $attribute not in $module.mutation_methods:\n    ...')
     ck.note("C03.7_mechanism", {"wrapper re-advertises getattr(module, method)": re_adv, "method guard checks owner's list": guarded})
     for d in dis:
         untyped = not d.args and not d.keywords
@@ -466,12 +467,12 @@ def _context(ck: Check, repo: Repo) -> None:
     dec = [n for n in cfg.live_nodes() if n.kind == "stmt" and isinstance(n.ast, ast.AugAssign) and dotted(n.ast.target) == "self.module._mutation_depth" and isinstance(n.ast.op, ast.Sub)]
     ck.ob("C03.3", ex, dec[0].ast if dec else ex.node, len(dec) == 1 and cfg.postdominates(dec[0], cfg.entry), "the nesting depth is decremented on every exit")
     en = repo.fn("agilerl.modules.base", "MutationContext.__enter__")
-    ck.ob("C03.3", en, en.node, "self.module._mutation_depth += 1" in ast.unparse(en.node), "and incremented on every entry", construct="depth increment")
+    ck.ob("C03.3", en, en.node, has(en.node, 'self.module._mutation_depth += 1'), "and incremented on every entry", construct="depth increment")
     hook = [cfg.node_of(c) for c in calls_in(ex.node) if call_name(c) == "self.module._mutation_hook"]
     ck.ob("C03.3", ex, hook[0].ast if hook and hook[0] else ex.node, len(hook) == 1 and (not rec or rec[0] is None or hook[0].id in cfg.reachable_from(rec[0])),
           "the module's mutation hook runs after the network was rebuilt")
     meta = repo.fn("agilerl.modules.base", "ModuleMeta.__call__")
-    ck.ob("C03.3", meta, meta.node, "setattr(instance, name, _mutation_wrapper(instance, method, name))" in ast.unparse(meta.node) and "instance.get_mutation_methods().items()" in ast.unparse(meta.node),
+    ck.ob("C03.3", meta, meta.node, has(meta.node, 'setattr($instance, $name, _mutation_wrapper($instance, $method, $name))') and has(meta.node, '$instance.get_mutation_methods().items()'),
           "every advertised mutation method of a new module runs inside a MutationContext", construct="ModuleMeta wraps mutation methods")
 
 
